@@ -550,3 +550,84 @@ Example C09_inst_examples :
   /\ nonfile_input (B "http://1.2.3/"%string) = true /\ special_input (B "ws://x.y:80/p"%string) = true
   /\ auth_input (B "a://u@[::1]:81/x"%string) = true.
 Proof. exact model_examples. Qed.
+
+(* ====================================================================================== *)
+(* C03's hypothesis HostWf for the host model, and the theorems stated under it             *)
+(* ====================================================================================== *)
+From RU Require Import Proofs.C04_ParseTotal Proofs.C03_ReachParts Proofs.C05_Comp Proofs.C05_CompSteps Proofs.C05_CompReach
+  Proofs.C05_CompSteps3 Proofs.C09_InstWf.
+
+(* HostWf (Proofs/C03_ReachParts.v): a host other than the empty one that Host::parse / Host::parse_opaque returns is
+   displayed as a non-empty text that does not start with ':' or '@' and does not end with '/'; the empty host as
+   nothing.  IpDisp (Proofs/C05_CompSteps3.v): an Ipv4Addr / Ipv6Addr value is displayed as a non-empty text that does
+   not start with ':' or '@'. *)
+Theorem C09_inst_HostWf : forall idna, IdnaOK idna ->
+  HostWf (host_parse idna) host_parse_opaque host_display /\ IpDisp host_display.
+Proof. intros idna OK. split; [exact (model_HostWf idna OK) | exact (model_IpDisp idna OK)]. Qed.
+Check C09_inst_HostWf : forall idna, IdnaOK idna ->
+  HostWf (host_parse idna) host_parse_opaque host_display /\ IpDisp host_display.
+Print Assumptions C09_inst_HostWf.
+
+(* C03: every record the parser (linked with the host model) returns is well formed - every scheme, with or without a
+   base, any input; the base satisfies base_ok and host_text_ok, which the result satisfies again
+   (C09_inst_C05_parse_base_ok) *)
+Theorem C09_inst_C03_parse_reachability : forall dbg idna, IdnaOK idna -> forall ovr base input u,
+  match base with Some b => base_ok b = true /\ C06_Suffix.host_text_ok b | None => True end ->
+  parse_url dbg (host_parse idna) host_parse_opaque host_display ovr base input = POk u ->
+  wf_b u = true /\ C06_Suffix.host_text_ok u.
+Proof. exact parse_wf_model. Qed.
+Check C09_inst_C03_parse_reachability : forall dbg idna, IdnaOK idna -> forall ovr base input u,
+  match base with Some b => base_ok b = true /\ C06_Suffix.host_text_ok b | None => True end ->
+  parse_url dbg (host_parse idna) host_parse_opaque host_display ovr base input = POk u ->
+  wf_b u = true /\ C06_Suffix.host_text_ok u.
+Print Assumptions C09_inst_C03_parse_reachability.
+
+Theorem C09_inst_C05_parse_base_ok : forall dbg idna, IdnaOK idna -> forall ovr base input u,
+  match base with Some b => base_ok b = true /\ C06_Suffix.host_text_ok b | None => True end ->
+  parse_url dbg (host_parse idna) host_parse_opaque host_display ovr base input = POk u ->
+  base_ok u = true /\ C06_Suffix.host_text_ok u.
+Proof. exact parse_base_ok_model. Qed.
+Check C09_inst_C05_parse_base_ok : forall dbg idna, IdnaOK idna -> forall ovr base input u,
+  match base with Some b => base_ok b = true /\ C06_Suffix.host_text_ok b | None => True end ->
+  parse_url dbg (host_parse idna) host_parse_opaque host_display ovr base input = POk u ->
+  base_ok u = true /\ C06_Suffix.host_text_ok u.
+Print Assumptions C09_inst_C05_parse_base_ok.
+
+(* C05: the component invariant and the five component clauses of the property text for EVERY parse result *)
+Theorem C09_inst_C05_components_parse : forall dbg idna, IdnaOK idna -> forall dbg' ovr base input u,
+  match base with Some b => CInv dbg' b /\ base_ok b = true | None => True end ->
+  parse_url dbg (host_parse idna) host_parse_opaque host_display ovr base input = POk u ->
+  CInv dbg' u /\ components_clean dbg' u.
+Proof. exact parse_components_model. Qed.
+Check C09_inst_C05_components_parse : forall dbg idna, IdnaOK idna -> forall dbg' ovr base input u,
+  match base with Some b => CInv dbg' b /\ base_ok b = true | None => True end ->
+  parse_url dbg (host_parse idna) host_parse_opaque host_display ovr base input = POk u ->
+  CInv dbg' u /\ components_clean dbg' u.
+Print Assumptions C09_inst_C05_components_parse.
+
+(* C05: along parse, join and gated steps of all 19 mutators (CReach: step_gate2; CReach3: step_gate3, which covers
+   quirks set_host with a port part and takes an address VALUE for set_ip_host) *)
+Theorem C09_inst_C05_components_reach : forall dbg idna, IdnaOK idna -> forall u,
+  CReach dbg (host_parse idna) host_parse_opaque host_display u -> wfh u /\ components_clean dbg u.
+Proof. exact reach_components_model. Qed.
+Check C09_inst_C05_components_reach : forall dbg idna, IdnaOK idna -> forall u,
+  CReach dbg (host_parse idna) host_parse_opaque host_display u -> wfh u /\ components_clean dbg u.
+Print Assumptions C09_inst_C05_components_reach.
+
+Theorem C09_inst_C05_components_reach3 : forall dbg idna, IdnaOK idna -> forall u,
+  CReach3 dbg (host_parse idna) host_parse_opaque host_display u -> wfh u /\ components_clean dbg u.
+Proof. exact reach3_components_model. Qed.
+Check C09_inst_C05_components_reach3 : forall dbg idna, IdnaOK idna -> forall u,
+  CReach3 dbg (host_parse idna) host_parse_opaque host_display u -> wfh u /\ components_clean dbg u.
+Print Assumptions C09_inst_C05_components_reach3.
+
+(* C05, first sentence of the property text for the linked model: only 0x21..0x7E, U+0020 solely inside an opaque
+   path, for every record of CReach3 whose stored host text has no space *)
+Theorem C09_inst_C05_alphabet_reach : forall dbg idna, IdnaOK idna -> forall u,
+  CReach3 dbg (host_parse idna) host_parse_opaque host_display u ->
+  (has_host u = true -> ~ In 32 (C03_WF.piece u (host_start u) (host_end u))) -> C05_Alphabet.alphabet_ok u.
+Proof. exact reach3_alphabet_model. Qed.
+Check C09_inst_C05_alphabet_reach : forall dbg idna, IdnaOK idna -> forall u,
+  CReach3 dbg (host_parse idna) host_parse_opaque host_display u ->
+  (has_host u = true -> ~ In 32 (C03_WF.piece u (host_start u) (host_end u))) -> C05_Alphabet.alphabet_ok u.
+Print Assumptions C09_inst_C05_alphabet_reach.
